@@ -5,7 +5,7 @@ namespace sim {
 CaseBox gen_case(const std::string& property, const std::string& part, const std::string& tier, uint64_t seed, int64_t idx) {
   CaseBox cb;
   cb.property = property;
-  (void)part;
+  if (property == "C12") { cb.engine = "c12"; cb.c12 = gen_c12(part, tier, seed, idx); return cb; }
   cb.engine = "conc";
   cb.conc = gen_conc(property, tier, seed, idx);
   return cb;
@@ -13,6 +13,7 @@ CaseBox gen_case(const std::string& property, const std::string& part, const std
 
 Outcome exec_case(CaseBox& cb, bool keep_log, Stats* stats) {
   if (cb.engine == "conc") return exec_conc(cb.conc, keep_log, stats);
+  if (cb.engine == "c12") return exec_c12(cb.c12, keep_log, stats);
   Outcome o;
   Violation v; v.cls = "machinery:unknown-engine"; v.site = cb.engine;
   o.violations.push_back(v);
@@ -21,6 +22,7 @@ Outcome exec_case(CaseBox& cb, bool keep_log, Stats* stats) {
 
 J case_to_json(const CaseBox& cb) {
   if (cb.engine == "conc") return conc_to_json(cb.conc);
+  if (cb.engine == "c12") return c12_to_json(cb.c12);
   return cb.generic;
 }
 
@@ -28,6 +30,7 @@ bool case_from_json(const J& j, CaseBox* cb) {
   cb->engine = j.gets("engine");
   cb->property = j.gets("property");
   if (cb->engine == "conc") return conc_from_json(j, &cb->conc);
+  if (cb->engine == "c12") return c12_from_json(j, &cb->c12);
   cb->generic = j;
   return !cb->engine.empty();
 }
@@ -36,7 +39,17 @@ void set_recorded_schedule(CaseBox* cb, const Outcome& o) {
   if (cb->engine == "conc") {
     cb->conc.sched.chooser = CH_EXPLICIT;
     cb->conc.sched.schedule = o.schedule;
+  } else if (cb->engine == "c12") {
+    cb->c12.explicit_schedule = true;
+    cb->c12.schedule = o.schedule;
   }
 }
 
+}  // namespace sim
+
+namespace sim {
+int64_t part_size(const std::string& property, const std::string& part, const std::string& tier) {
+  if (property == "C12") return c12_part_size(part, tier);
+  return -1;
+}
 }  // namespace sim
